@@ -73,6 +73,7 @@ func checkC16(c *Check, a *Anchors) {
 	deepCopyNilSafe(c, a, "deepcopy-nil-safe")
 	reflectIsNilGuarded(c, a, "reflect-isnil-guarded")
 	discardedErrorValueUsed(c, a, "discarded-error-value-used")
+	pointerDefaultsAfterDecode(c, a)
 	recursionReviewed(c, a, "recursion-reviewed") // termination of loading / merging / compiling: the recursions are the only unbounded construct besides the reviewed loops
 }
 
@@ -233,8 +234,8 @@ func shapeOf(info *types.Info, e ast.Expr) string {
 var otherReviewed = map[string]string{
 	"pkg internal/deepcopy|copy.Interface().(T)":         "the copy is created with reflect.New(original.Type()), so it has the static type T",
 	"pkg taskfile|edge.Properties.Data.([]*ast.Include)": "edge data of the include graph is only ever written by the reader, as []*ast.Include",
-	"taskfile.init|panic":   "init-time registration of the embedded syntax-highlighting style / lexer; independent of user input",
-	"taskfile.init#2|panic": "init-time registration of the embedded syntax-highlighting style / lexer; independent of user input",
+	"taskfile.init|panic":                                "init-time registration of the embedded syntax-highlighting style / lexer; independent of user input",
+	"taskfile.init#2|panic":                              "init-time registration of the embedded syntax-highlighting style / lexer; independent of user input",
 }
 
 func c16OtherPanics(c *Check, a *Anchors) {
@@ -570,7 +571,6 @@ func lenOfNonEmptyPkgVar(p *Prog, info *types.Info, e ast.Expr) string {
 	return ""
 }
 
-
 // bundleShape: for `v.f[i]` where v is a local of an unexported struct type of the same package, the shape of `<type of v.f>[i]`.
 func bundleShape(fb *FuncBody, e ast.Expr) string {
 	info := fb.Info()
@@ -735,3 +735,74 @@ func builtFromDereferenced(info *types.Info, root *FuncBody, e ast.Expr) bool {
 // builtSliceProducer (set by the nil-elements rule): the function is declared in the module and every return of it yields a
 // local slice that is builtFromDereferenced in it.
 var builtSliceProducer func(fn *types.Func) bool
+
+// pointerDefaultsAfterDecode: a default for a pointer-typed section survives an explicit YAML null only when it is applied
+// after decoding.
+func pointerDefaultsAfterDecode(c *Check, a *Anchors) {
+	c.Rule("pointer-defaults-after-decode", "for every yaml Decode into a local struct in taskfile/ast: a pointer field of that struct that was given a non-nil default BEFORE the Decode is tested against nil after it (yaml.v3 assigns nil to a pointer field whose key is present with a null value — `tasks:` with nothing under it — so a default set before decoding does not survive, and Tasks.Merge, Vars.Merge … lock the mutex of the nil container)")
+	n := 0
+	ord := map[string]int{}
+	for _, fb := range c.P.BodiesIn(PkgAst) {
+		if fb.Decl == nil {
+			continue
+		}
+		info := fb.Info()
+		for _, call := range callsIn(fb, false) {
+			fn, ok := callee(info, call).(*types.Func)
+			if !ok || fn.Name() != "Decode" || fn.Pkg() == nil || !strings.HasSuffix(fn.Pkg().Path(), "yaml.v3") || len(call.Args) != 1 {
+				continue
+			}
+			u, ok := ast.Unparen(call.Args[0]).(*ast.UnaryExpr)
+			if !ok || u.Op != token.AND {
+				continue
+			}
+			target := varOf(info, u.X)
+			if target == nil || target.IsField() {
+				continue
+			}
+			if _, isStruct := target.Type().Underlying().(*types.Struct); !isStruct {
+				continue
+			}
+			n++
+			c.Fn(fb)
+			// non-nil defaults of pointer fields before the Decode
+			var lost []string
+			inspectBody(fb.Body, func(nd ast.Node) bool {
+				as, ok := nd.(*ast.AssignStmt)
+				if !ok || as.Pos() >= call.Pos() || len(as.Lhs) != len(as.Rhs) {
+					return true
+				}
+				for i, l := range as.Lhs {
+					sel, ok := ast.Unparen(l).(*ast.SelectorExpr)
+					if !ok || varOf(info, sel.X) != target || isNilLit(info, as.Rhs[i]) {
+						continue
+					}
+					if _, isPtr := typeOf(info, sel).Underlying().(*types.Pointer); !isPtr {
+						continue
+					}
+					// tested against nil after the Decode (on the decode target or on whatever it is copied to)?
+					tested := false
+					inspectBody(fb.Body, func(m ast.Node) bool {
+						be, ok := m.(*ast.BinaryExpr)
+						if !ok || be.Pos() <= call.End() || (be.Op != token.EQL && be.Op != token.NEQ) {
+							return true
+						}
+						for _, side := range []ast.Expr{be.X, be.Y} {
+							if s2, ok := ast.Unparen(side).(*ast.SelectorExpr); ok && s2.Sel.Name == sel.Sel.Name {
+								tested = true
+							}
+						}
+						return true
+					})
+					if !tested {
+						lost = append(lost, exprStr(sel))
+					}
+				}
+				return true
+			})
+			c.Decide(len(lost) == 0, "pointer-defaults-after-decode", ordinal(ord, "decode@"+fnDisplay(fb)), call.Pos(), "no pointer default is set before the Decode without a nil test after it",
+				"the default of "+strings.Join(lost, ", ")+" is assigned before the Decode and the field is not tested against nil afterwards: a key that is present with a null value (`tasks:` and nothing under it) leaves the field nil, and the merge / run code locks the mutex of a nil container — a panic for an input that is accepted today")
+		}
+	}
+	c.Floor("pointer-defaults-after-decode", n, 5)
+}
